@@ -701,6 +701,131 @@ func C16(c *core.Ctx) {
 		n := selfWait(c, "R16.7", []string{"fw/face", "fw/fw", "fw/mgmt", "fw/table", "fw/dispatch"}, "the goroutine waits for a receive only it could perform: the face is never removed from the face table, its routes and FIB next hops stay, and whoever closes it again blocks too")
 		c.Floor("R16.7", "channel fields with a single receiving function in fw/", n, 1)
 	}
+	// ---- R16.11 nobody waits, with a table lock held, for a goroutine that needs that lock:
+	// a blocking receive from a channel field made while a table mutex is held is a
+	// deadlock when the function that closes (or sends on) that channel takes the same
+	// mutex before it gets there — a timer function that locks the RIB to remove an expired
+	// route, and a stopExpiration that waits for it under the RIB lock.
+	{
+		type closer struct {
+			fn *ssa.Function
+			at ssa.Instruction
+		}
+		closers := map[string][]closer{}
+		fieldOfChan := func(v ssa.Value, fn *ssa.Function) string {
+			v = core.Strip(v)
+			if _, path := core.FieldPath(v); len(path) > 0 {
+				return path[len(path)-1]
+			}
+			// a local (possibly a captured cell) that is also stored into a channel field
+			var cell ssa.Value = v
+			if u, ok := v.(*ssa.UnOp); ok && u.Op == token.MUL {
+				cell = core.Strip(u.X)
+			}
+			if fv, ok := cell.(*ssa.FreeVar); ok && fn.Parent() != nil {
+				for i, q := range fn.FreeVars {
+					if q != fv {
+						continue
+					}
+					core.Instrs(fn.Parent(), func(in ssa.Instruction) {
+						if mc, okM := in.(*ssa.MakeClosure); okM && mc.Fn == ssa.Value(fn) && i < len(mc.Bindings) {
+							cell = core.Strip(mc.Bindings[i])
+						}
+					})
+				}
+				fn = fn.Parent()
+			}
+			name := ""
+			core.Instrs(fn, func(in ssa.Instruction) {
+				st, ok := in.(*ssa.Store)
+				if !ok {
+					return
+				}
+				fa, ok := st.Addr.(*ssa.FieldAddr)
+				if !ok {
+					return
+				}
+				val := core.Strip(st.Val)
+				if u, okU := val.(*ssa.UnOp); okU && u.Op == token.MUL {
+					val = core.Strip(u.X)
+				}
+				if val == cell || core.Strip(st.Val) == cell {
+					if _, isCh := st.Val.Type().Underlying().(*types.Chan); isCh {
+						_, name = core.FieldAddrName(fa)
+					}
+				}
+			})
+			return name
+		}
+		var tableFns []*ssa.Function
+		for _, fn := range p.FuncsIn(pkg) {
+			if !strings.HasSuffix(p.File(fn.Pos()), "_test.go") && fn.Blocks != nil {
+				tableFns = append(tableFns, fn)
+			}
+		}
+		for _, fn := range tableFns {
+			core.Instrs(fn, func(in ssa.Instruction) {
+				var ch ssa.Value
+				switch x := in.(type) {
+				case *ssa.Send:
+					ch = x.Chan
+				case *ssa.Defer:
+					if b, ok := x.Call.Value.(*ssa.Builtin); ok && b.Name() == "close" && len(x.Call.Args) == 1 {
+						ch = x.Call.Args[0]
+					}
+				case *ssa.Call:
+					if b, ok := x.Call.Value.(*ssa.Builtin); ok && b.Name() == "close" && len(x.Call.Args) == 1 {
+						ch = x.Call.Args[0]
+					}
+				}
+				if ch == nil {
+					return
+				}
+				if f := fieldOfChan(ch, fn); f != "" {
+					closers[f] = append(closers[f], closer{fn, in})
+				}
+			})
+		}
+		nWait, bad := 0, ""
+		for _, fn := range tableFns {
+			core.Instrs(fn, func(in ssa.Instruction) {
+				u, ok := in.(*ssa.UnOp)
+				if !ok || u.Op != token.ARROW {
+					return
+				}
+				f := fieldOfChan(u.X, fn)
+				if f == "" {
+					return
+				}
+				h := held[fn][in]
+				if len(h) == 0 {
+					return
+				}
+				nWait++
+				for _, cl := range closers[f] {
+					for _, g := range core.Reach(core.RootOf(cl.fn)) {
+						core.Instrs(g, func(x ssa.Instruction) {
+							if name, op := core.LockOp(x); op > 0 {
+								if h["W:"+name] || h["R:"+name] && op == 1 {
+									bad = fmt.Sprintf("%s waits on %s at %s holding %s; %s, which closes it, locks %s at %s", core.FuncName(fn), f, c.Pos(in), h.String(), core.FuncName(cl.fn), name, c.Pos(x))
+								}
+							}
+						})
+					}
+					// the closer itself (a function literal handed to a timer) is not in
+					// the reach of its parent: look at its own body too
+					core.Instrs(cl.fn, func(x ssa.Instruction) {
+						if name, op := core.LockOp(x); op > 0 {
+							if h["W:"+name] || h["R:"+name] && op == 1 {
+								bad = fmt.Sprintf("%s waits on %s at %s holding %s; %s, which closes it, locks %s at %s", core.FuncName(fn), f, c.Pos(in), h.String(), core.FuncName(cl.fn), name, c.Pos(x))
+							}
+						}
+					})
+				}
+			})
+		}
+		c.Decide(bad == "", "R16.11", "no-wait-under-a-lock-the-signaller-needs", "-", fmt.Sprintf("%d blocking receives from a channel field with a table lock held, none waits for a function that takes that lock", nWait), "deadlock: "+bad+" — the waiter never gets its signal, and every later command that needs the lock blocks behind it")
+	}
 	// ---- R16.9 removing a face from the RIB publishes no intermediate RIB: the forwarding
 	// threads look the FIB up without the RIB mutex, so a walk that removes the face's routes
 	// node by node and refreshes each node's FIB entry on the way publishes next-hop sets
